@@ -16,6 +16,12 @@ Case kinds
   predict   predict / predict_rdm / descriptors / dict round trip of a model object, exactly.
   nnls      `_nn_least_squares(A, y, V)` against the modelled active-set loop + KKT predicate.
   subsample `RDMs.subsample_pattern` against the model's selection, exactly.
+  session   (round 4, `C08_session.py`) reuse sessions: one model object (or two of the same class and name),
+            one data RDMs object, one sigma_k array, one theta array used by 2-6 successive fits / predictions;
+            every step is judged as its own single-call `fit` / `predict` case built from the session's numbers
+            (`C08_session.virtual_case`), every live object must be bit-identical after every call and earlier
+            return values must keep their content.  No case shares a mutable input with another case: every case
+            (and every step's reference computation) builds its arrays from the JSON numbers.
 """
 import hashlib
 import importlib
@@ -30,6 +36,7 @@ import numpy as np
 
 from lean import rat, unrat, fbits, unfbits, close
 from engines import C08_oracle as orc
+from engines import C08_session as ses
 
 PROPERTY = 'C08'
 LEVEL = 'proof'
@@ -58,6 +65,9 @@ THEOREMS = [P + n for n in (
     'interpolate_assembly_matches_objective', 'interpolate_segments', 'leaf_norm_entries_agree',
     'leaf_nnls_tests', 'leaf_nnls_bounds', 'leaf_nnls_step',
     'interpolate_predict_rdm_clamps', 'interpolate_default_spec', 'default_fitter_dispatch',
+    # round 4: reuse sessions
+    'inputs_not_written', 'no_module_state', 'call_stateless', 'session_calls_independent',
+    'session_calls_only', 'specSession_append', 'session_call_good', 'session_predictions_agree',
 )]
 RULE = ('one PRNG; kind fit: 2-4 basis RDMs x 4-7 conditions (small integers, scaled by 1/10/100, '
         'full rank on the selected entries), 1-4 training RDMs (signal = non-negative mixture of the '
@@ -68,7 +78,12 @@ RULE = ('one PRNG; kind fit: 2-4 basis RDMs x 4-7 conditions (small integers, sc
         'select / interpolate; competitors: random, local perturbations, unit and grid points. '
         'kind predict: all four model classes built from RDMs / vectors / matrices, theta None / '
         'index / vectors incl. negative ones, linear combinations, dict round trip. kind nnls: the '
-        'active-set solver directly (V None / given). kind subsample: exact. Non-trivial = the '
+        'active-set solver directly (V None / given). kind subsample: exact. kind session: ONE model object '
+        '(or two of the same class and name) and ONE data RDMs object fitted / asked for predictions 2-6 times in '
+        'succession by different fitters, criteria (centring ones first) and routes, with and without pattern '
+        'indices (same index array and subsample reused), one sigma_k array refilled in place, one theta array '
+        'reused, caller edits of the data in between; every call judged against the session\'s own numbers, all '
+        'live objects bit-identical after every call, earlier return values intact at the end. Non-trivial = the '
         'optimum is not a unit vector and the basis has >= 2 RDMs (fit) / k >= 2 (predict); '
         'distinct = distinct case contents.')
 METHODS = ['cosine', 'corr', 'cosine_cov', 'corr_cov']
@@ -86,7 +101,15 @@ BRANCHES = (['method:' + m for m in METHODS] + ['fitter:' + f for f in FITTERS] 
              'nnls:dup', 'nnls:nested', 'nnls:multi_drop',
              'route:Model.fit:optimize', 'route:Model.fit:select', 'route:Model.fit:interpolate',
              'objective:optimize', 'objective:optimize_positive', 'select:undefined_candidate',
-             'family:anti', 'route:Fitter', 'malformed:method', 'nn:all_zero'])
+             'family:anti', 'route:Fitter', 'malformed:method', 'nn:all_zero'] +
+            ['kind:session'] + ['session:' + k_ for k_ in ses.SKINDS] +
+            ['session:fit:' + f_ for f_ in FITTERS + ['mock']] +
+            ['session:route:func', 'session:route:Fitter', 'session:route:Model.fit',
+             'session:predict', 'session:predict:same-theta', 'session:no_pattern_idx', 'session:pattern_idx',
+             'session:reuse-subsample', 'session:plain-after-centring', 'session:sigma:vec:refill',
+             'session:sigma:mat:refill', 'session:two-models', 'session:edit:write', 'session:edit:rebind',
+             'session:edit:append', 'session:class:select', 'session:class:interpolate',
+             'session:class:fixed', 'session:common_nan'])
 ASSUMPTIONS = [
     'IEEE evaluation of either side is within the stated tolerance of the real value (small integer '
     'inputs, n <= 7, well-conditioned sigma_k, Gram matrices of full rank with cond < 1e4)',
@@ -696,6 +719,8 @@ def generate(rng, tier):
         yield _nnls_case(rng, tier, want_multi_drop=(i % 20 == 0))
     for _ in range(40 if quick else 800):
         yield _subsample_case(rng, tier)
+    # round 4: reuse sessions (state that survives a call)
+    yield from ses.generate(rng, tier)
 
 
 def search(rng, tier):
@@ -703,6 +728,10 @@ def search(rng, tier):
     k = 0
     while True:
         k += 1
+        if k % 3 == 0:
+            # state that survives a call shows only when objects are used again
+            yield ses.search(rng, k // 3 - 1)
+            continue
         r = k % 10
         fam = FAMILIES[(k // 10) % len(FAMILIES)] if (k // 5) % 2 else None
         if r < 3:
@@ -804,6 +833,13 @@ def run_impl(case):
         out = _nnls_impl(case)
     elif case['kind'] == 'subsample':
         out = _subsample_impl(case)
+    elif case['kind'] == 'session':
+        out = ses.run_session(case)
+        for i, st in enumerate(case['steps']):
+            if st['op'] == 'fit' and st['fitter'] != 'mock':
+                # the live call is the "implementation result" of the step's own single-call case
+                _IMPL_CACHE[_key(ses.virtual_case(case, i))] = {'theta': out['steps'][i]['theta'],
+                                                                'lib_score': None}
     else:
         th, sc = _call_fit(case, _rows(case['basis']), _rows(case['data']), via_fit=case.get('via') == 'fit')
         out = {'theta': th, 'lib_score': sc}
@@ -881,6 +917,24 @@ def model_requests(case):
     if case['kind'] == 'subsample':
         return [{'op': 'c08.subsample', 'n': case['n'], 'desc': _desc_for(case),
                  'value': case['value'], 'v': case['v']}]
+    if case['kind'] == 'session':
+        run_impl(case)               # runs the live session and registers the steps' results
+        reqs, spans = [], []
+        for i, st in enumerate(case['steps']):
+            r = []
+            if st['op'] == 'fit' and st['fitter'] != 'mock':
+                r = model_requests(ses.virtual_case(case, i))
+            elif st['op'] in ('predict', 'fit'):
+                md = case['models'][st['model']]
+                r = [{'op': 'c08.predict', 'kind': md['cls'], 'n': case['n'],
+                      'obj': [[rat(unrat(v)) for v in row] for row in md['basis']],
+                      'desc': [['cond', case['desc']]] if md['cls'] == 'fixed' else
+                      [['cond', case['desc']], ['index', list(range(case['n']))]],
+                      'params': [st['theta'] if st['op'] == 'predict' else None]}]
+            spans.append(len(r))
+            reqs += r
+        _SESSION_SPANS[_key(case)] = spans
+        return reqs
     if case.get('bad_method'):
         return []
     impl = run_impl(case)
@@ -914,6 +968,9 @@ def model_requests(case):
     return reqs
 
 
+_SESSION_SPANS = {}
+
+
 def _dec(v):
     return None if v is None else unfbits(v)
 
@@ -921,6 +978,18 @@ def _dec(v):
 def model_result(case, answers):
     if case['kind'] in ('predict', 'subsample'):
         return answers[0]
+    if case['kind'] == 'session':
+        out, a0 = [], 0
+        for i, (st, n_) in enumerate(zip(case['steps'], _SESSION_SPANS[_key(case)])):
+            part = answers[a0:a0 + n_]
+            a0 += n_
+            if st['op'] == 'fit' and st['fitter'] != 'mock':
+                out.append(model_result(ses.virtual_case(case, i), part))
+            elif st['op'] in ('predict', 'fit'):
+                out.append(part[0])
+            else:
+                out.append(None)
+        return {'steps': out}
     if case['kind'] == 'nnls':
         a = answers[0]
         if 'model_error' in a:
@@ -1035,12 +1104,55 @@ def _cmp_predict(case, impl, model):
     return None
 
 
+def _cmp_session(case, impl, model):
+    """the model is stateless (`session_calls_independent`): step i of the session has the value of the
+    stand-alone call, every live object is what it was, earlier return values stay what they were"""
+    for i, (st, im, mo) in enumerate(zip(case['steps'], impl['steps'], model['steps'])):
+        if st['op'] == 'edit':
+            continue
+        tag = f'session step {i} ({st["op"]} {st.get("fitter", "")} {st.get("method", "") if st["op"] == "fit" else ""})'
+        if isinstance(mo, dict) and 'model_error' in mo:
+            return f'{tag}: model error {mo}'
+        if st['op'] == 'fit' and st['fitter'] == 'mock':
+            want = [float(unrat(v)) for v in mo['mock']]
+            if im['theta'] != want:
+                return f'{tag}: fit_mock {im["theta"]} != model {want}'
+        elif st['op'] == 'fit':
+            d = compare(ses.virtual_case(case, i), {'theta': im['theta'], 'lib_score': None}, mo)
+            if d:
+                return f'{tag}: {d}'
+        else:
+            b = mo['direct'][0]
+            for fld_ in ('vec', 'rdm'):
+                x, y = im[fld_], b[fld_]
+                if isinstance(x, dict) or y is None:
+                    if not (isinstance(x, dict) and y is None):
+                        return f'{tag}: {fld_} impl {x} model {y}'
+                    continue
+                fx = [[unrat(v) for v in r] for r in x] if fld_ == 'rdm' else [unrat(v) for v in x]
+                fy = [[unrat(v) for v in r] for r in y] if fld_ == 'rdm' else [unrat(v) for v in y]
+                if fx != fy:
+                    return f'{tag}: {fld_} impl {x} != model {y}'
+            if isinstance(im['desc'], dict) and 'exc' not in im['desc']:
+                da = {k: [float(v) for v in vs] for k, vs in im['desc'].items()}
+                db = {kv[0]: [float(v) for v in kv[1]] for kv in (b['desc'] or [])}
+                if da != db:
+                    return f'{tag}: pattern descriptors impl {da} != model {db}'
+        if im.get('state'):
+            return f'{tag}: the call changed {im["state"]} (the model leaves every object as it was)'
+        if im.get('held'):
+            return f'{tag}: the call changed the {im["held"]} of an earlier step'
+    return None
+
+
 def compare(case, impl, model):
     if isinstance(model, dict) and 'model_error' in model:
         return f'model error {model}'
     kind = case['kind']
     if kind == 'predict':
         return _cmp_predict(case, impl, model)
+    if kind == 'session':
+        return _cmp_session(case, impl, model)
     if kind == 'subsample':
         if 'exc' in impl:
             return f'subsample_pattern raised {impl}'
@@ -1212,6 +1324,54 @@ def features(case, impl):
                 'timeout': bool(impl and impl.get('exc') == 'Timeout'), 'branches': br}
     if kind == 'subsample':
         return {'kind': kind, 'by': case['by'], 'n': case['n'], 'branches': ['kind:subsample']}
+    if kind == 'session':
+        br = {'kind:session', 'session:' + case['skind']}
+        if len(case['models']) > 1 and len({s_.get('model') for s_ in case['steps'] if s_['op'] != 'edit'}) > 1:
+            br.add('session:two-models')
+        if case.get('common_nan') is not None:
+            br.add('session:common_nan')
+        centred, seen_sel, seen_sig, seen_th = False, set(), {}, {}
+        for s_ in case['steps']:
+            if s_['op'] == 'edit':
+                br.add('session:edit:' + s_['how'])
+                seen_sel.clear()
+                continue
+            br.add('session:class:' + case['models'][s_['model']]['cls'])
+            if s_['op'] == 'predict':
+                br.add('session:predict')
+                key = json.dumps(s_['theta'])
+                if seen_th.get(s_['slot']) == key:
+                    br.add('session:predict:same-theta')
+                seen_th[s_['slot']] = key
+                continue
+            br.add('session:fit:' + s_['fitter'])
+            br.add('session:route:' + s_['route'])
+            if s_['value'] is None:
+                br.add('session:no_pattern_idx')
+                if centred and s_['method'] in ('cosine', 'cosine_cov'):
+                    br.add('session:plain-after-centring')
+                if s_['method'] in ('corr', 'corr_cov'):
+                    centred = True
+            else:
+                br.add('session:pattern_idx')
+                key = (s_['by'], tuple(s_['value']))
+                if key in seen_sel:
+                    br.add('session:reuse-subsample')
+                seen_sel.add(key)
+            if s_['sigma'] is not None:
+                kd = sigma_kind(s_['sigma'])
+                txt = json.dumps(s_['sigma'], sort_keys=True)
+                if kd in seen_sig and seen_sig[kd] != txt:
+                    br.add(f'session:sigma:{kd}:refill')
+                seen_sig[kd] = txt
+        exc = None
+        if impl:
+            for r_ in impl.get('steps', []):
+                if isinstance(r_.get('theta'), dict):
+                    exc = r_['theta'].get('exc')
+        return {'kind': kind, 'skind': case['skind'], 'n': case['n'], 'n_steps': len(case['steps']),
+                'n_models': len(case['models']), 'cls': case['models'][0]['cls'], 'exc': exc,
+                'branches': sorted(br)}
     br = ['method:' + case['method'], 'fitter:' + case['fitter'],
           'by:' + case['by'], 'normalize:' + ('on' if case['normalize'] else 'off')]
     if case['method'].endswith('_cov'):
@@ -1363,10 +1523,13 @@ def _oracle_predict(case):
     return None
 
 
-def _oracle_fit(case):
+def _oracle_fit(case, given=None):
+    """`given`: the result of a call made elsewhere (a step of a reuse session) to be judged as the result
+    of this single-call case; the extra fresh-object calls (Model.fit route, re-fit after changing unselected
+    entries) are then left out"""
     f = case['fitter']
     basis, data = _rows(case['basis']), _rows(case['data'])
-    cached = run_impl(case)          # the same real call (memoised per case content)
+    cached = given if given is not None else run_impl(case)   # the same real call (memoised per case content)
     th, lib_sc = cached['theta'], cached['lib_score']
     if case.get('bad_method'):
         if isinstance(th, dict) and th['exc'] == 'ValueError':
@@ -1444,7 +1607,7 @@ def _oracle_fit(case):
             return _fail(f'{f}: a competitor scores higher than the fit (gap {sc - s:.3g})',
                          {'theta': th, 'score': s}, {'theta': [float(x) for x in c], 'score': sc},
                          claim='optimal', gap=sc - s, **feats)
-    if f in ('select', 'interpolate') and not case.get('malformed'):
+    if f in ('select', 'interpolate') and not case.get('malformed') and given is None:
         # every public route to the fit: Model.fit (default fitter of the class) must do as well
         tv, _ = _call_fit(case, basis, data, via_fit=True)
         if isinstance(tv, dict):
@@ -1461,7 +1624,7 @@ def _oracle_fit(case):
         if any(th) and abs(nrm - 1) > 1e-9:
             return _fail(f'{f}: normalised theta does not have unit norm', nrm, 1.0,
                          claim='unit_norm', **feats)
-    if _has_unselected(case) and not f.startswith('optimize'):
+    if _has_unselected(case) and not f.startswith('optimize') and given is None:
         th2, _ = _call_fit(case, _perturbed(case, basis, 3.0), _perturbed(case, data, 5.0))
         same = (th2 == th) if f == 'select' else (not isinstance(th2, dict) and
                                                   _vec_diff(th, th2, 1e-9) is None)
@@ -1507,6 +1670,67 @@ def _oracle_subsample(case):
     return None
 
 
+def _oracle_session(case):
+    """every call of the session judged on its own against the session's own numbers (never a live object);
+    a wrong value of a (later) call is reported in preference to the change of an object that caused it"""
+    impl = run_impl(case)
+    first_value, first_state = None, None
+    for i, (st, im) in enumerate(zip(case['steps'], impl['steps'])):
+        if st['op'] == 'edit':
+            continue
+        feats = dict(session=case['skind'], step=i, op=st['op'])
+        where = f'call {i + 1} of {len(case["steps"])} on the same objects'
+        o = None
+        if st['op'] == 'fit' and st['fitter'] == 'mock':
+            if im['theta'] != []:
+                o = _fail('Model.fit of a ModelFixed does not return an empty parameter vector', im['theta'], [],
+                          claim='returns')
+        elif st['op'] == 'fit':
+            o = _oracle_fit(ses.virtual_case(case, i), given={'theta': im['theta'], 'lib_score': None})
+        else:
+            want, adm = ses.expected_predict(case, st)
+            if isinstance(im['vec'], dict):
+                o = _fail(f'predict raises for theta={st["theta"]}', im, 'a prediction', claim='predict')
+            elif want is not None and [unrat(x) for x in im['vec']] != want:
+                o = _fail(f'predict(theta={st["theta"]}) is not the weighted sum of the basis', im['vec'],
+                          [str(x) for x in want], claim='predict_value')
+            elif adm and (isinstance(im['rdm'], dict) or len(im['rdm']) != 1 or
+                          [unrat(x) for x in im['rdm'][0]] != want):
+                o = _fail(f'predict and predict_rdm disagree for theta={st["theta"]}', im['rdm'], im['vec'],
+                          claim='predict_vs_rdm')
+            elif adm:
+                wd = {'index': list(range(case['n'])), 'cond': list(case['desc'])}
+                if im['desc'] != wd:
+                    o = _fail(f'predict_rdm(theta={st["theta"]}) does not carry the model\'s pattern descriptors',
+                              im['desc'], wd, claim='descriptors')
+        s_ = None
+        if im.get('state'):
+            s_ = _fail(f'the call changed {im["state"]}: the objects handed to a fit / prediction no longer hold '
+                       'the RDMs, descriptors, pattern indices, sigma_k or parameters they were given',
+                       im['state'], 'bit-identical objects after the call', claim='state')
+        elif im.get('held'):
+            s_ = _fail(f'the call overwrote the {im["held"]} of an earlier call', im['held'],
+                       'earlier results keep their values', claim='returned_view')
+        for kind_, f_ in (('value', o), ('state', s_)):
+            if f_ is None:
+                continue
+            f_['what'] = f'reuse session{" (" + case["context"] + ")" if case.get("context") else ""}: ' \
+                f'{f_["what"]} - {where} ({st["op"]}' + \
+                (f' {st["fitter"]} {st["method"]} via {st["route"]}' if st['op'] == 'fit' else '') + ')'
+            f_['features'] = dict(f_.get('features', {}), **feats)
+            if kind_ == 'value' and first_value is None:
+                first_value = f_
+            if kind_ == 'state' and first_state is None:
+                first_state = f_
+        if first_value is not None:
+            break
+    if first_value is not None:
+        if first_state is not None and first_state['features']['step'] < first_value['features']['step']:
+            first_value['what'] += f' [earlier: {first_state["what"][:160]}]'
+        return first_value
+    return first_state
+
+
 def oracle(case):
     with warnings.catch_warnings():
         warnings.simplefilter('ignore')
@@ -1517,10 +1741,37 @@ def oracle(case):
                 return _oracle_nnls(case)
             if case['kind'] == 'subsample':
                 return _oracle_subsample(case)
+            if case['kind'] == 'session':
+                return _oracle_session(case)
             return _oracle_fit(case)
 
 
 def shrink(case, still_fails):
+    if case['kind'] == 'session':
+        o = oracle(case)
+        if not o:
+            return case
+        side = ('state', 'returned_view')
+        value_failure = o['features'].get('claim') not in side
+
+        def fails_alike(c):
+            # a call that returns a wrong value is not "shrunk" to the change of an object that caused it
+            oo = oracle(c)
+            return bool(oo) and (not value_failure or oo['features'].get('claim') not in side)
+        shr = ses.shrink(case, fails_alike, o['features'].get('step'))
+
+        def fresh_alike(c):
+            cl = ses.fresh_claim(c)
+            return bool(cl) and (not value_failure or cl not in side)
+        # the replay has to fail on its own: a module-level memo poisoned by EARLIER cases of this run makes
+        # even a one-call session "fail" here - judge the shrunk session in a pristine interpreter
+        if shr == case or fresh_alike(shr):
+            return shr
+        if not fresh_alike(case):
+            # fails only after the earlier cases of this run (shared module-level state): kept as found and
+            # labelled, so that a self-contained session is reported beside it
+            return dict(case, context='after the earlier cases of this run')
+        return ses.shrink(case, fresh_alike, o['features'].get('step'))
     if case['kind'] != 'fit':
         return case
     cached = _IMPL_CACHE.get(_key(case))
